@@ -211,7 +211,12 @@ def classify(ctx, failing):
     minimal inputs through Coq, group by key.  -> {key: (min_case, status, e2, count)}"""
     groups = {}
     minimal = {}
-    for c, st, e2 in failing:
+    # smallest inputs first; beyond a cap the remaining failing inputs are only counted (a mutated decompiler can fail on
+    # hundreds of thousands of inputs, the classes are found among the small ones)
+    order = sorted(range(len(failing)), key=lambda i: (L.size(failing[i][0]['e']), i))
+    cap = 6000
+    skipped = len(order) - cap if len(order) > cap else 0
+    for c, st, e2 in [failing[i] for i in order[:cap]]:
         kind = c['kind']
         plain = c['e']            # atoms printed as plain names for the shrink
         m = L.minimise(plain, kind, st, _status_cache, _min_cache) if L.status(plain, kind, _status_cache) == st else None
@@ -446,6 +451,18 @@ def correspondence(ctx):
                     disagreements.append({'what': 'real instruction stream or tree outside the modelled set: %s' % u, 'input': L.source_text(e, kind)})
                 continue
             in_dom = in_dom_e and not (kind == 'lambda' and 'If' in L.constructors(e))
+            if fam == 'dnf-family':
+                # the theorem's family: beyond the ties, the REAL decompiler must return exactly the source
+                dist['dnf_family_cases'] = dist.get('dnf_family_cases', 0) + 1
+                if o['result'] != '(XGen PVar [[%s]])' % M.ptree(ast.parse(L.src(e), mode='eval').body):
+                    disagreements.append({'what': 'C03_andor_partial family: the real decompiler does not return the source', 'input': L.source_text(e, kind), 'impl': o['result']})
+            if L.natoms(e) > 6:
+                texprs.append('andb (compile_domain %s %s) (tie_noexec %s %s %s [%s] %d %s)' % (
+                    M.POSITION[kind], L.coq(e), M.POSITION[kind], L.coq(e), M.coq_code(o['code']), ';'.join(map(str, o['orj'])), o['ce'], o['result']))
+                tmeta.append((kind, e, o)); dist['model_cases'] += 1; dist['model_in_compile_domain'] += 1
+                dist['real_outcomes']['exception' if o['exc'] else 'tree'] += 1
+                if not o['exc']: nontrivial.add((kind, L.key_tuple(e)))
+                continue
             texprs.append('%s (tie_all %s %d %s %s [%s] %d %s)' % (
                 'andb (compile_domain %s %s)' % (M.POSITION[kind], L.coq(e)) if in_dom else 'andb (negb (compile_domain %s %s))' % (M.POSITION[kind], L.coq(e)),
                 M.POSITION[kind], L.natoms(e), L.coq(e), M.coq_code(o['code']), ';'.join(map(str, o['orj'])), o['ce'], o['result']))
@@ -459,7 +476,7 @@ def correspondence(ctx):
         # say which tie point differs (only the first few)
         for i in tbad[:8]:
             kind, e, o = tmeta[i]
-            q = 'tie_parts %s %d %s %s [%s] %d %s' % (M.POSITION[kind], L.natoms(e), L.coq(e), M.coq_code(o['code']), ';'.join(map(str, o['orj'])), o['ce'], o['result'])
+            q = 'tie_parts %s %d %s %s [%s] %d %s' % (M.POSITION[kind], L.natoms(e) if L.natoms(e) <= 6 else 0, L.coq(e), M.coq_code(o['code']), ';'.join(map(str, o['orj'])), o['ce'], o['result'])
             out = vlib.parse_eval_outputs(vlib.coq_eval(ctx, M.COQ_HEADER + 'Eval vm_compute in (%s).\n' % q, name='tiedbg%d' % i))
             parts = out[0] if out else '?'
             names = ['compile vs dis', 'or_jumps/conditions_end', 'decompile vs Decompiler.ast', 'exec vs eval']
@@ -474,6 +491,22 @@ def correspondence(ctx):
     return Corr(cases=n_ref + len(texprs), nontrivial=len(nontrivial), disagreements=disagreements, samples=samples, distribution=dist,
                 note='every case is a boolean computed by vm_compute inside Coq from the model and the serialised implementation output; '
                      'a model case = compile vs dis stream, or_jumps/conditions_end, decompile_code vs Decompiler.ast, exec vs eval, for one expression at one position')
+
+
+def dnf_family(rng):
+    """random instance of the family of C03_andor_partial: an `or` of `and`s of literals, up to 12 distinct atoms"""
+    m = rng.randint(1, 5)
+    widths = [rng.randint(1, 4) for _ in range(m)]
+    while sum(widths) > 12: widths[widths.index(max(widths))] -= 1
+    nxt = [0]
+    def lit():
+        a = ('A', nxt[0]); nxt[0] += 1
+        return ('N', a) if rng.random() < 0.4 else a
+    alts = []
+    for w in widths:
+        ls = [lit() for _ in range(w)]
+        alts.append(ls[0] if w == 1 else ('And', ls))
+    return alts[0] if m == 1 else ('Or', alts)
 
 
 def model_cases(ctx):
@@ -494,6 +527,12 @@ def model_cases(ctx):
     for i in range(ctx.scale(60, 1500)):
         e, _ = random_bexp(rng, rng.randint(4, 8), rng.randint(2, 5), rich=False)
         out.append(('random', e, allpos))
+    seen = set()
+    for i in range(ctx.scale(150, 3000)):
+        e = dnf_family(rng)
+        if L.key_tuple(e) in seen: continue
+        seen.add(L.key_tuple(e))
+        out.append(('dnf-family', e, ['filter']))
     return out
 
 
